@@ -512,7 +512,7 @@ pub fn replay_history(clauses: &[Clause], n: usize, hist: &[Act]) -> Result<(), 
 fn families(ctx: &Ctx) -> Vec<(usize, usize, usize, &'static str)> {
     // (n, max clauses, max clause width, name)
     match ctx.tier {
-        Tier::Quick => vec![(3, 2, 6, "n3_le2_clauses")],
+        Tier::Quick => vec![(3, 2, 6, "n3_le2_clauses"), (3, 3, 103, "n3_3_clauses_width_ge2_nontautological")],
         Tier::Thorough => vec![(3, 3, 6, "n3_le3_clauses"), (4, 2, 3, "n4_le2_clauses_width_le3")],
     }
 }
@@ -522,15 +522,24 @@ pub fn run(ctx: &Ctx) -> Report {
         "per CNF (every multiset of <=k clause types over n variables, incl. empty/unit/duplicate/tautological clauses): BFS to closure over all decide(+-v)/pop histories with at most n+1 open decisions, de-duplicated on (watch lists, state stack); a state is non-trivial if its key is new",
     );
     for (n, maxk, width, name) in families(ctx) {
+        let special = width == 103;
         let types: Vec<Clause> = clause_types(n)
             .into_iter()
             .filter(|c| {
                 let mut vs: Vec<usize> = c.iter().map(|l| l.0).collect();
                 vs.dedup();
-                vs.len() <= width
+                if special {
+                    // non-tautological clauses over >= 2 variables
+                    vs.len() >= 2 && vs.len() == c.len()
+                } else {
+                    vs.len() <= width
+                }
             })
             .collect();
         let mut sets = multisets(types.len(), maxk);
+        if special {
+            sets.retain(|m| m.len() == maxk);
+        }
         ctx.rotate(&mut sets);
         // chunk the CNFs
         let chunks: Vec<&[Vec<usize>]> = sets.chunks(64).collect();
